@@ -459,6 +459,7 @@ fn check_cmd(a: &[String]) -> i32 {
             .set("tier", J::Str(tier.clone()))
             .set("verif_seed", J::Str(seed.to_string()))
             .set("run_index", J::u(f.index))
+            .set("variant", J::Str(std::env::var("VERIF_VARIANT").unwrap_or_else(|_| "rt".to_string())))
             .set("mask", J::u((plan.mask & check::pbit(id)) as u64))
             .set("minimised_from_bytes", J::u(t.conns.iter().map(|c| c.wire.len()).sum::<usize>() as u64 + t.ops.iter().map(|o| o.buf.len()).sum::<usize>() as u64))
             .set("trace", min.to_json());
@@ -490,6 +491,7 @@ fn check_cmd(a: &[String]) -> i32 {
                 .set("oracle", J::str("process-death"))
                 .set("detail", J::Str(if *sig == 14 { "the run did not finish within the watchdog limit (normal: < 1 ms)".to_string() } else { format!("worker killed by signal {} while executing this run", sig) }))
                 .set("expect_crash", J::Bool(true))
+                .set("variant", J::Str(std::env::var("VERIF_VARIANT").unwrap_or_else(|_| "rt".to_string())))
                 .set("mask", J::u(plan.mask as u64))
                 .set("trace", min.to_json());
             std::fs::write(&path, rj.pretty()).unwrap();
